@@ -292,11 +292,11 @@ def World.shutdownSession (w : World) (i : Nat) (sid : String) : World :=
     let w := (w.setNode i { n with reg := n.reg.filter (fun x => x.id != sid) }).emit s.conn .closed
     let w := { w with conns := w.conns.filter (fun (c : String × Nat) => c.1 != s.conn) }
     let w := s.topics.foldl (fun w t => w.subDelete i sid t) w
+    -- the record of this session goes away if it is still there; the will is withheld when another live record carries
+    -- the client identifier (the client has reconnected, here or on another node)
     let cands := sessByClientID (w.node i).dist s.mount s.client
-    let (w, stop) :=
-      match cands with
-      | [] => (w, false)
-      | md :: _ => if md.id ≠ sid then (w, true) else (w.sessDelete i sid, false)
+    let stop := cands.any (fun md => md.id != sid)
+    let w := if cands.any (fun md => md.id == sid) then w.sessDelete i sid else w
     if stop then w
     else if s.disconnected then w
     else
